@@ -491,7 +491,9 @@ pub fn in_frame<T>(
 ) -> Result<T> {
 	let _guard = check_depth()?;
 
-	f().with_description_src(e, frame_desc)
+	// Every counted frame may be one level of native recursion (e.g. a chain of lazy
+	// locals forcing each other), make sure it has stack to run on.
+	ensure_sufficient_stack(f).with_description_src(e, frame_desc)
 }
 
 /// Executes code creating a new stack frame, to be replaced with try{}
@@ -501,7 +503,7 @@ pub fn in_description_frame<T>(
 ) -> Result<T> {
 	let _guard = check_depth()?;
 
-	f().with_description(frame_desc)
+	ensure_sufficient_stack(f).with_description(frame_desc)
 }
 
 #[derive(Trace)]
